@@ -309,3 +309,15 @@ for _c in ("C03", "C01"):
 for _c in ("C01", "C12"):
     CLAIMS[_c]["text"] += " Patterns that bind without testing (`let`, `for`) are handed to the usefulness analysis (BINDING-PAT-TOTAL)."
 CLAIMS["C21"]["text"] += " Every statement nested in an expression or statement is resolved in a scope created inside that construct; alternative branches do not share one (SCOPE)."
+
+# ---- fourth seeding round
+CLAIMS["C09"]["text"] += " The ChannelWrite arm queues its value on every path (CH-QUEUE)."
+for _c in ("C11", "C02", "C01"):
+    CLAIMS[_c]["text"] += " The last-statement flag handed to the statement lowering is computed over the sequence being lowered, with no element skipped inside the loop (LAST-FLAG)."
+for _c in ("C13", "C12", "C04"):
+    CLAIMS[_c]["text"] += " The substitution that instantiates declared types recurses into every composite type unconditionally (SUBST-DEEP)."
+for _c in ("C16", "C15", "C05"):
+    CLAIMS[_c]["text"] += " Float division reports division by zero exactly for a zero divisor: the guard is evaluated over representative divisors (FLOAT-DIV-ZERO)."
+for _c in ("C05", "C15", "C16"):
+    CLAIMS[_c]["text"] += " A peephole rewrite never deletes an instruction whose VM arm can record a runtime error unless its replacement records the same one; table-predicate guards on a whole instruction are expanded per listed form (PEEP-SOUND)."
+CLAIMS["C07"]["text"] += " A boxed object may be handed back to the allocator directly only if none of its fields owns memory and the layout is that of its type (TAG-DISPATCH)."
